@@ -34,7 +34,7 @@ PASSWORDS = [None, "", "p%3Aq%FF"]
 HOSTS = [("h.com", "h.com"), ("xn--9ca.com", "xn--9ca.com"), ("1.2.3.4", "1.2.3.4"), ("[::1]", "::1"), ("[fe80::1%eth0]", "fe80::1%eth0"),
          ("v1.x", "v1.x")]    # a reg-name that looks like an IPvFuture literal (no brackets: it is not one)
 PORTS = [None, 0, "default", 81]
-PATHS = ["", "/", "/p", "/a/b/", "/d/e.txt", "/x.tar.%67z"]
+PATHS = ["", "/", "/p", "/a/b/", "/d/e.txt", "/x.tar.%67z", "//cdn.example/lib.js"]
 QUERIES = ["", "q=1"]
 FRAGS = ["", "f"]
 
